@@ -319,6 +319,9 @@ Definition csv_table (n_scan : nat) (d : ascii) (comments : list ascii) (text : 
       map (csv_row d) (skipn hl (lines_of text))
   end.
 
-(** A file: header comment lines, then one line per row, fields joined by the delimiter. *)
+(** A file: header comment lines, then one line per row (fields joined by the delimiter), every line
+    terminated by a newline. *)
+Definition render_lines (ls : list string) : string :=
+  fold_right (fun l acc => (l ++ String newline acc)%string) EmptyString ls.
 Definition render_csv (d : ascii) (header : list string) (rows : list (list string)) : string :=
-  (join (String newline "") (header ++ map (join (String d "")) rows) ++ String newline "")%string.
+  render_lines (header ++ map (join (String d "")) rows).
